@@ -30,6 +30,7 @@ import (
 	"sync"
 	"time"
 
+	"seehuhn.de/go/sfnt/cff"
 	"seehuhn.de/go/sfnt/verifharness/vlib"
 )
 
@@ -560,11 +561,12 @@ func Gen(run *vlib.Run, seed uint64, tier string) {
 	thorough := tier == "thorough"
 	t0 := time.Now()
 
-	envNames := []string{"cff-gtab", "cff-sub", "cff-cid", "cff-nonames", "glyf-gtab", "glyf-sub", "glyf-bi", "glyf-nonames"}
+	envNames := []string{"rt-cid3", "rt-cid0", "cff-gtab", "cff-sub", "cff-cid", "cff-nonames", "rt-cff",
+		"glyf-gtab", "glyf-sub", "glyf-bi", "glyf-nonames", "rt-glyf"}
 	depEnvs := []string{"cff-gtab", "glyf-sub"}
 	if thorough {
 		envNames = EnvNames
-		depEnvs = []string{"cff-gtab", "cff-sub", "glyf-gtab", "glyf-sub", "cff-cid"}
+		depEnvs = []string{"cff-gtab", "cff-sub", "glyf-gtab", "glyf-sub", "cff-cid", "rt-cid3"}
 	}
 	infos := map[string]*envInfo{}
 	for _, n := range envNames {
@@ -803,7 +805,26 @@ func Gen(run *vlib.Run, seed uint64, tier string) {
 		}
 		nPairs := len(pairs)
 		if !thorough {
-			nPairs = 28
+			nPairs = 20
+		}
+		// CID-keyed fonts: every pair of the operations that go through
+		// Outlines.FDSelect (a function value the readers build), with
+		// arguments that make them visit the FDSelect ranges in different
+		// orders
+		if o, ok := ei.e.Font.Outlines.(*cff.Outlines); ok && o.IsCIDKeyed() {
+			fdOps := []opArg{
+				{opIndex["Write"], 0}, {opIndex["WritePDF"], 0}, {opIndex["AsCFFWrite"], 0},
+				{opIndex["Subset"], 4}, {opIndex["SubsetWrite"], 5}, {opIndex["Subset"], 3},
+				{opIndex["FDSweep"], 0}, {opIndex["FDSweep"], 1}, {opIndex["FDSweep"], 3},
+				{opIndex["Widths"], 0}, {opIndex["GlyphBBox"], 0}, {opIndex["FontBBox"], 0},
+			}
+			for i := range fdOps {
+				for j := i; j < len(fdOps); j++ {
+					if thorough || r.Chance(1, 3) {
+						addConc(ei, [][]opInst{{ei.trace(fdOps[i].o, fdOps[i].a, 0, wd)}, {ei.trace(fdOps[j].o, fdOps[j].a, 1, wd)}}, "pairs", "fdselect-pair")
+					}
+				}
+			}
 		}
 		perm := make([]int, len(pairs))
 		for i := range perm {
